@@ -691,7 +691,14 @@ func (w *world) exec(line string) {
 			w.sessPart = append(w.sessPart, atoi(f[3]))
 		case "enc":
 			pay := atoi(f[2])
-			data := payloadBytes(pay)
+			// the payload is handed over as a window of a larger caller-owned buffer (spare capacity behind
+			// it, like a pooled buffer or bytes.Buffer output): the SDK must neither write into that buffer
+			// nor return a record that aliases it - the buffer is scribbled over right after the call
+			pb := payloadBytes(pay)
+			arena := make([]byte, len(pb)+112)
+			data := arena[16 : 16+len(pb)]
+			copy(data, pb)
+			arenaBefore := append([]byte(nil), arena...)
 			w.curPay = append([]byte(nil), data...)
 			orig := append([]byte(nil), data...)
 			var d *appencryption.DataRowRecord
@@ -707,7 +714,11 @@ func (w *world) exec(line string) {
 			} else {
 				d, err = w.sess[atoi(f[1])].Encrypt(ctx, data)
 			}
-			if !bytes.Equal(orig, data) {
+			inputTouched := !bytes.Equal(orig, data) || !bytes.Equal(arenaBefore, arena)
+			for i := range arena {
+				arena[i] = 0xA5
+			}
+			if inputTouched {
 				obs = "res=modified-input"
 			} else if err != nil {
 				obs = "res=err"
